@@ -96,7 +96,7 @@ RULES = {
         ("BaseProduct", "type", ["bogus", None, "GA", "tech-preview"], "common.RELEASE_TYPES"),
         ("BaseProduct", "version", ["1.", "1..2", "1a", None], "RELEASE_VERSION_RE"),
         ("BaseProduct", "name", NOT_A_STRING, "attribute doc: (str)"),
-        ("Variant", "id", ["a-b", "a b", "", None, "x.y"] + BAD_VARIANT_IDS, "attribute doc: variant ID; validator comment ^[a-zA-Z0-9]+$ (dash separates UID parts)"),
+        ("Variant", "id", ["a-b", "a b", "", None, "x.y", "S\u00e9rveur", "Server\u0662", "Stra\u00dfe", "\u0421\u0435\u0440\u0432\u0435\u0440", "Server\u00b2", "\uff33erver"] + BAD_VARIANT_IDS, "attribute doc: variant ID; validator comment ^[a-zA-Z0-9]+$ (dash separates UID parts)"),
         ("Variant", "name", ["", None, 5], "attribute doc: variant name (pretty text), required"),
         ("Variant", "type", ["bogus", None, "Variant", ""], "composeinfo.VARIANT_TYPES"),
         ("Variant", "arches", [set(), []], "attribute doc: set of arches for a variant (non-empty)"),
@@ -123,9 +123,9 @@ RULES = {
     "treeinfo": [
         ("Release", "name", NOT_A_STRING, "doc treeinfo-1.1: name <str>"),
         ("Release", "short", NOT_A_STRING, "doc: short <str>"),
-        ("Release", "version", ["1.", "1..2", "1a", None, 7] + BAD_NUMERIC_VERSIONS, "doc: version <str>; numeric versions are dot-separated integers"),
+        ("Release", "version", ["1.", "1..2", "1a", None, 7, "\u0667.x", "\uff17-beta", "7.\u0663x"] + BAD_NUMERIC_VERSIONS, "doc: version <str>; numeric versions are dot-separated integers (a version starting with any decimal digit is numeric for a tree)"),
         ("Release", "is_layered", NOT_A_BOOL, "doc: is_layered <bool=False>"),
-        ("BaseProduct", "version", ["1.", "1a", None], "doc: base product version"),
+        ("BaseProduct", "version", ["1.", "1a", None, "\u0667.x"], "doc: base product version"),
         ("BaseProduct", "name", NOT_A_STRING, "doc: name <str>"),
         ("Tree", "arch", ["", None, 5], "doc: arch <str> tree architecture"),
         ("Tree", "build_timestamp", [None, "1", 0, 0.0], "doc: build_timestamp <int|float>"),
